@@ -7,7 +7,10 @@ use boa_macros::{Finalize, Trace};
 
 use crate::{
     JsString,
-    object::shape::{Shape, WeakShape, slot::Slot},
+    object::shape::{
+        Shape, WeakShape,
+        slot::{Slot, SlotAttributes},
+    },
 };
 
 #[cfg(test)]
@@ -20,6 +23,10 @@ pub(crate) const PIC_CAPACITY: usize = 4;
 pub(crate) struct CacheEntry {
     /// A weak reference is kept to the shape to avoid the shape preventing deallocation.
     pub(crate) shape: WeakShape,
+    /// For an entry whose slot lives in the prototype ([`SlotAttributes::PROTOTYPE`]): the shape the
+    /// prototype object had when the entry was created. The slot index is only meaningful for that
+    /// layout, and the receiver's shape says nothing about it.
+    pub(crate) prototype_shape: Option<WeakShape>,
     #[unsafe_ignore_trace]
     pub(crate) slot: Slot,
 }
@@ -73,12 +80,22 @@ impl InlineCache {
             return;
         }
 
+        // Remember the layout of the prototype that the slot index refers to.
+        let prototype_shape = if slot.attributes.contains(SlotAttributes::PROTOTYPE) {
+            shape
+                .prototype()
+                .map(|prototype| WeakShape::from(prototype.borrow().shape()))
+        } else {
+            None
+        };
+
         let mut entries = self.entries.borrow_mut();
 
         // Add a new entry if there's space.
         if entries
             .try_push(CacheEntry {
                 shape: shape.into(),
+                prototype_shape,
                 slot,
             })
             .is_err()
@@ -111,7 +128,13 @@ impl InlineCache {
         while i < entries.len() {
             if let Some(upgraded) = entries[i].shape.upgrade() {
                 if upgraded.to_addr_usize() == shape_addr {
-                    result = Some((upgraded, entries[i].slot));
+                    if self.entry_is_current(&entries[i], &upgraded) {
+                        result = Some((upgraded, entries[i].slot));
+                    } else {
+                        // The prototype's layout changed (or the receiver got an own property with
+                        // this name): the entry is stale, make room for a fresh one.
+                        entries.swap_remove(i);
+                    }
                     break;
                 }
                 i += 1;
@@ -124,5 +147,32 @@ impl InlineCache {
         crate::verif::ic_event(&self.name, if result.is_some() { 'h' } else { 'x' });
 
         result
+    }
+
+    /// Checks the part of an entry's validity that the receiver's shape identity does not cover.
+    ///
+    /// An entry flagged [`SlotAttributes::PROTOTYPE`] points into the storage of the receiver shape's
+    /// prototype object. It stays valid only while that object has the shape it had when the entry
+    /// was created, and while the receiver has no own property with this name (a unique shape keeps
+    /// its identity when a property is added to it).
+    fn entry_is_current(&self, entry: &CacheEntry, shape: &Shape) -> bool {
+        if !entry.slot.attributes.contains(SlotAttributes::PROTOTYPE) {
+            return true;
+        }
+        if shape.is_unique() && shape.lookup(&self.name.clone().into()).is_some() {
+            return false;
+        }
+        let Some(expected) = entry
+            .prototype_shape
+            .as_ref()
+            .and_then(WeakShape::upgrade)
+        else {
+            return false;
+        };
+        let Some(prototype) = shape.prototype() else {
+            return false;
+        };
+        let current = prototype.borrow().shape().to_addr_usize();
+        current == expected.to_addr_usize()
     }
 }
